@@ -257,8 +257,13 @@ func splitTop(s string, sep byte) []string {
 	return parts
 }
 
+var reTag = regexp.MustCompile(`^\[([A-Za-z0-9_\-]+)\]\s*(.*)$`)
+
 func parseClause(text, file string, line int) (Clause, error) {
 	c := Clause{Text: strings.TrimSpace(text), File: file, Line: line}
+	if m := reTag.FindStringSubmatch(c.Text); m != nil {
+		c.Tag, c.Text = m[1], m[2]
+	}
 	src := rewriteSpec(c.Text)
 	e, err := parser.ParseExpr(src)
 	if err != nil {
@@ -376,15 +381,10 @@ func (cs *Contracts) LoadContractFile(file, pkgPath string) error {
 			if cur == nil {
 				return fmt.Errorf("%s:%d: %s outside func", file, rl.line, kw)
 			}
-			tag := ""
-			if m := regexp.MustCompile(`^\[([A-Za-z0-9_\-]+)\]\s*(.*)$`).FindStringSubmatch(rest); m != nil {
-				tag, rest = m[1], m[2]
-			}
 			c, err := mk(rest)
 			if err != nil {
 				return err
 			}
-			c.Tag = tag
 			if kw == "requires" {
 				cur.Requires = append(cur.Requires, c)
 			} else {
